@@ -243,6 +243,19 @@ func c20r3(w *World, rr *RuleRun) {
 		arg := callInstrCommon(site).Args[flag]
 		w.Require(rr, site, "query send is unrated only under NotAny / NotFirst-on-first-write", func(alt *Alt) (bool, string) {
 			t := w.FE.Resolve(alt, arg)
+			// fold negations of constants: !(first && NotFirst) resolves to !false / !true on a path
+			for t.Op == OpNot && len(t.Args) == 1 && (t.Args[0].IsConst("true") || t.Args[0].IsConst("false")) {
+				if t.Args[0].IsConst("true") {
+					t = constTerm("false")
+				} else {
+					t = constTerm("true")
+				}
+			}
+			firstWrite := func() bool {
+				return alt.Has("b", true, func(x *Term) bool {
+					return x.Op == OpBin && x.Name == "==" && (x.Args[0].IsConst("0") || x.Args[1].IsConst("0"))
+				})
+			}
 			switch {
 			case t.IsConst("true"):
 				return true, "rated"
@@ -250,7 +263,10 @@ func c20r3(w *World, rr *RuleRun) {
 				if alt.Has("b", true, func(x *Term) bool { return x.Op == OpField && x.Obj == notAny }) {
 					return true, "unrated under RateLimiting.NotAny"
 				}
-				return false, "rate flag is false without the caller's NotAny opt-out"
+				if alt.Has("b", true, func(x *Term) bool { return x.Op == OpField && x.Obj == notFirst }) && firstWrite() {
+					return true, "unrated under RateLimiting.NotFirst on the first write (writes == 0)"
+				}
+				return false, "rate flag is false without the caller's NotAny opt-out (or NotFirst on the first write)"
 			case t.Op == OpNot && t.Args[0].Op == OpField && t.Args[0].Obj == notFirst:
 				// rate == !NotFirst: unrated only if NotFirst; must be the first write
 				if alt.Has("b", true, func(x *Term) bool {
